@@ -116,6 +116,7 @@ func main() {
 	_ = os.MkdirAll(outDir, 0755)
 	genProxy()
 	genProxyCFG()
+	genUpstream()
 }
 
 type lines struct{ b strings.Builder }
